@@ -14,6 +14,8 @@ variable {K : Type} [Add K] [Sub K] [Mul K] [Div K] [OfNat K 0] [OfNat K 1] [BEq
 
 /-! ### no `out=`: no effects -/
 
+theorem prepOut_none (T : Tables) (f : String) : (prepOut T f .none : List (Effect K)) = [] := rfl
+
 theorem wrapUp_none (T : Tables) (eff : List (Effect K)) (c : Call K) (rp : Bool) (mul : K)
     (unit : Option (UnitV K)) (f : Option K) (fs : Option Nat) (h : c.out = .none) :
     (wrapUp T eff c rp mul unit f fs).effects = eff := by
@@ -33,10 +35,13 @@ theorem unary_none (C : Ctx K) (c : Call K) (inp : Operand K) (eff0 : List (Effe
     · rfl
     · split
       · rfl
-      · simp only [h, kernelWrites, List.append_nil]
+      · simp only [h, prepOut_none, kernelWrites, List.append_nil]
         split
         · rfl
-        · rw [wrapUp_none _ _ _ _ _ _ _ _ h]
+        · split
+          · rfl
+          · dsimp only
+            rw [wrapUp_none _ _ _ _ _ _ _ _ h]
 
 theorem stdBinary_none (C : Ctx K) (c : Call K) (rule : Rule) (i0 i1 : Operand K) (u0r u1r : Option (UnitR K))
     (eff0 : List (Effect K)) (h : c.out = .none) : (stdBinary C c rule i0 i1 u0r u1r eff0).effects = eff0 := by
@@ -51,12 +56,13 @@ theorem stdBinary_none (C : Ctx K) (c : Call K) (rule : Rule) (i0 i1 : Operand K
       · rfl
       · split
         · rfl
-        · split
+        · simp only [h, prepOut_none, kernelWrites, List.append_nil]
+          split
           · rfl
-          · simp only [h, kernelWrites, List.append_nil]
-            split
+          · split
             · rfl
-            · rw [wrapUp_none _ _ _ _ _ _ _ _ h]
+            · dsimp only
+              rw [wrapUp_none _ _ _ _ _ _ _ _ h]
 
 theorem powerPath_none (C : Ctx K) (c : Call K) (i0 i1 : Operand K) (u0r c1 : Option (UnitR K))
     (eff0 : List (Effect K)) (h : c.out = .none) : (powerPath C c i0 i1 u0r c1 eff0).effects = eff0 := by
@@ -68,9 +74,10 @@ theorem powerPath_none (C : Ctx K) (c : Call K) (i0 i1 : Operand K) (u0r c1 : Op
     · rfl
     · split
       · rfl
-      · split
+      · simp only [h, prepOut_none, kernelWrites, List.append_nil]
+        split
         · rfl
-        · rw [wrapUp_none _ _ _ _ _ _ _ _ h]; simp only [h, kernelWrites, List.append_nil]
+        · rw [wrapUp_none _ _ _ _ _ _ _ _ h]
 
 theorem clipPath_none (C : Ctx K) (c : Call K) (eff0 : List (Effect K)) (h : c.out = .none) :
     (clipPath C c eff0).effects = eff0 := by
@@ -86,7 +93,7 @@ theorem clipPath_none (C : Ctx K) (c : Call K) (eff0 : List (Effect K)) (h : c.o
 
 theorem dispatch_none (C : Ctx K) (c : Call K) (h : c.out = .none) : (dispatch C c).effects = [] := by
   unfold dispatch
-  simp only [h, prepOut]
+  dsimp only
   split
   · exact unary_none C c _ [] h
   · unfold binaryPath
@@ -104,10 +111,13 @@ theorem dispatch_none (C : Ctx K) (c : Call K) (h : c.out = .none) : (dispatch C
     · exact clipPath_none C c [] h
     · rfl
 
-/-! ### runs that raise before the kernel -/
-/-- a run that raised without performing anything beyond `eff0` -/
-def Early (eff0 : List (Effect K)) (r : Run K) : Prop :=
-  ∀ e, r.result = .error e → r.effects = eff0
+/-! ### runs that raise before the kernel writes -/
+
+/-- a run that raised having performed nothing beyond `eff0`, except — when NumPy's own kernel
+    refused the call — the re-typing of an integer `out=` that immediately precedes the kernel -/
+def Early (C : Ctx K) (c : Call K) (eff0 : List (Effect K)) (r : Run K) : Prop :=
+  ∀ e, r.result = .error e →
+    r.effects = eff0 ∨ (c.kernelErr.isSome = true ∧ r.effects = eff0 ++ prepOut C.T c.ufunc c.out)
 
 theorem finishOut_ok (b : Bool) (unit : Option (UnitV K)) (o : OutSpec) (h : ∀ os, o ≠ .many os) :
     (finishOut b unit o).2 = none := by
@@ -131,31 +141,41 @@ theorem wrapClassFails_false (T : Tables) (c : Call K) (unit : Option (UnitV K))
     wrapClassFails T c false unit = false := by
   simp [wrapClassFails]
 
+theorem map_ne_error {α β : Type} (r : Except Err α) (g : α → β) (e : Err) (h : r ≠ .error e) :
+    r.map g ≠ .error e := by
+  cases r with
+  | error e' => intro h'; apply h; simp [Except.map] at h'; rw [h']
+  | ok a => intro h'; simp [Except.map] at h'
+
 theorem unary_early (C : Ctx K) (c : Call K) (inp : Operand K) (eff0 : List (Effect K))
     (h : ∀ os, c.out ≠ .many os)
     (hr : ((c.ufunc == C.T.multiplyName || c.ufunc == C.T.divideName) && c.method == .reduce) = false)
     (hrule : (match C.T.ruleOf c.ufunc with | some r => Rule.totalOnOne r | none => false) = true) :
-    Early eff0 (unaryPath C c inp eff0) := by
-  intro e he
-  unfold unaryPath at he ⊢
-  split at he
-  · rfl
-  · rfl
-  · dsimp only at he ⊢
-    split at he
-    · rfl
-    · split at he
-      · rfl
-      · exfalso
-        rw [hr] at he
-        simp only [Bool.false_eq_true, if_false] at he
-        cases hro : C.T.ruleOf c.ufunc with
-        | none => simp [hro] at hrule
-        | some r =>
-          rw [hro] at he hrule
-          simp only at he hrule
-          cases r <;> simp [Rule.totalOnOne] at hrule <;> simp only [applyRule1] at he <;>
-            exact wrapUp_never_fails C.T _ c false _ _ _ _ h (wrapClassFails_false _ _ _) e he
+    Early C c eff0 (unaryPath C c inp eff0) := by
+  intro e
+  unfold unaryPath
+  split
+  · intro _; left; rfl
+  · intro _; left; rfl
+  · dsimp only
+    split
+    · intro _; left; rfl
+    · split
+      · intro _; left; rfl
+      · split
+        · rename_i ke hke
+          intro _; right; exact ⟨by rw [hke]; rfl, rfl⟩
+        · rw [hr]
+          simp only [Bool.false_eq_true, if_false]
+          cases hro : C.T.ruleOf c.ufunc with
+          | none => simp [hro] at hrule
+          | some r =>
+            rw [hro] at hrule
+            simp only at hrule
+            intro he
+            exfalso
+            cases r <;> simp [Rule.totalOnOne] at hrule <;> simp only [applyRule1] at he <;>
+              exact map_ne_error _ _ e (wrapUp_never_fails C.T _ c false _ _ _ _ h (wrapClassFails_false _ _ _) e) he
 
 theorem mulDivPost_ok_of_not_muldiv (rule : Rule) (u0 u1 : UnitR K) (mul : K) (unit : Option (UnitV K))
     (h : (rule == .multiply || rule == .divide) = false) :
@@ -175,125 +195,142 @@ theorem mulDivPost_ok_of_no_offset (rule : Rule) (u0 u1 : UnitR K) (mul : K) (un
 theorem stdBinary_early (C : Ctx K) (c : Call K) (rule : Rule) (i0 i1 : Operand K)
     (u0r u1r : Option (UnitR K)) (eff0 : List (Effect K))
     (h : ∀ os, c.out ≠ .many os) (hu : (i0.isUnyt || i1.isUnyt) = true)
-    (hmd : (!(rule == .multiply || rule == .divide)
+    (hmd : (!(rule == .multiply || rule == .divide || rule == .floorDivide)
             || (!offsetTemperature (defaultUnit u0r).v && !offsetTemperature (defaultUnit u1r).v)) = true) :
-    Early eff0 (stdBinary C c rule i0 i1 u0r u1r eff0) := by
+    Early C c eff0 (stdBinary C c rule i0 i1 u0r u1r eff0) := by
   intro e
   have hrp : (!(i0.isUnyt) && !(i1.isUnyt)) = false := by
     cases h0 : i0.isUnyt <;> cases h1 : i1.isUnyt <;> simp_all
   unfold stdBinary
   dsimp only
   split
-  · intro _; rfl
-  · split
-    · intro _; rfl
+  · intro _; left; rfl
+  · generalize hrule' : (if (rule == Rule.floorDivide && (defaultUnit u0r).v.dim != (defaultUnit u1r).v.dim) = true
+        then Rule.divide else rule) = rule'
+    split
+    · intro _; left; rfl
     · rename_i b hchk
       split
-      · intro _; rfl
+      · intro _; left; rfl
       · split
-        · intro _; rfl
+        · intro _; left; rfl
         · intro he; cases he
       · intro he; cases he
     · rename_i u0' u1' conv hchk
       split
-      · intro _; rfl
+      · intro _; left; rfl
       · split
-        · intro _; rfl
+        · intro _; left; rfl
         · split
-          · intro _; rfl
+          · rename_i ke hke
+            intro _; right; exact ⟨by rw [hke]; rfl, rfl⟩
           · rename_i mul unit _ _ _
-            have hpost : ∃ r, mulDivPost rule u0' u1' mul unit = .ok r := by
-              cases hm : (rule == .multiply || rule == .divide) with
-              | false => exact ⟨_, mulDivPost_ok_of_not_muldiv rule u0' u1' mul unit hm⟩
+            have hpost : ∃ r, mulDivPost rule' u0' u1' mul unit = .ok r := by
+              cases hm : (rule' == .multiply || rule' == .divide) with
+              | false => exact ⟨_, mulDivPost_ok_of_not_muldiv rule' u0' u1' mul unit hm⟩
               | true =>
-                have hck : rule.checked = false := by
-                  cases rule <;> simp [Rule.checked] at hm ⊢
+                have hck : rule'.rescales = false := by
+                  cases rule' <;> simp [Rule.rescales, Rule.checked] at hm ⊢
                 rw [hck] at hchk
                 simp only [Bool.false_eq_true, if_false] at hchk
                 cases hchk
-                rw [hm] at hmd
+                have horig : (rule == .multiply || rule == .divide || rule == .floorDivide) = true := by
+                  rw [← hrule'] at hm
+                  split at hm
+                  · rename_i hfd
+                    simp only [Bool.and_eq_true] at hfd
+                    simp [hfd.1]
+                  · simp only [Bool.or_eq_true] at hm ⊢
+                    rcases hm with hm | hm
+                    · exact Or.inl (Or.inl hm)
+                    · exact Or.inl (Or.inr hm)
+                rw [horig] at hmd
                 simp only [Bool.not_true, Bool.false_or, Bool.and_eq_true, Bool.not_eq_true'] at hmd
-                exact mulDivPost_ok_of_no_offset rule _ _ mul unit hmd.1 hmd.2
+                exact mulDivPost_ok_of_no_offset rule' _ _ mul unit hmd.1 hmd.2
             obtain ⟨⟨m', un'⟩, hp⟩ := hpost
             rw [hp]
             simp only
             rw [hrp]
             intro he
-            exact absurd he (wrapUp_never_fails C.T _ c false _ _ _ _ h (wrapClassFails_false _ _ _) e)
+            exfalso
+            exact map_ne_error _ _ e (wrapUp_never_fails C.T _ c false _ _ _ _ h (wrapClassFails_false _ _ _) e) he
 
 theorem powerPath_early (C : Ctx K) (c : Call K) (i0 i1 : Operand K) (u0r c1 : Option (UnitR K))
     (eff0 : List (Effect K)) (h : ∀ os, c.out ≠ .many os) (hu : (i0.isUnyt || i1.isUnyt) = true) :
-    Early eff0 (powerPath C c i0 i1 u0r c1 eff0) := by
+    Early C c eff0 (powerPath C c i0 i1 u0r c1 eff0) := by
   intro e
   have hrp : (!(i0.isUnyt) && !(i1.isUnyt)) = false := by
     cases h0 : i0.isUnyt <;> cases h1 : i1.isUnyt <;> simp_all
   unfold powerPath
   dsimp only
   split
-  · intro _; rfl
+  · intro _; left; rfl
   · split
-    · intro _; rfl
+    · intro _; left; rfl
     · split
-      · intro _; rfl
+      · intro _; left; rfl
       · split
-        · intro _; rfl
+        · rename_i ke hke
+          intro _; right; exact ⟨by rw [hke]; rfl, rfl⟩
         · rw [hrp]
           intro he
           exact absurd he (wrapUp_never_fails C.T _ c false _ _ _ _ h (wrapClassFails_false _ _ _) e)
 
 theorem clipPath_early (C : Ctx K) (c : Call K) (eff0 : List (Effect K)) (h : ∀ os, c.out ≠ .many os) :
-    Early eff0 (clipPath C c eff0) := by
+    Early C c eff0 (clipPath C c eff0) := by
   intro e
   unfold clipPath
   split
   · dsimp only
     split
-    · intro _; rfl
+    · intro _; left; rfl
     · split
-      · intro _; rfl
+      · intro _; left; rfl
       · intro he
         exact absurd he (wrapUp_never_fails C.T _ c false _ _ _ _ h (wrapClassFails_false _ _ _) e)
-  · intro _; rfl
+  · intro _; left; rfl
 
 theorem dispatch_failed_early (C : Ctx K) (c : Call K) (e : Err) (hg : ufuncGuard C c = true)
     (he : (dispatch C c).result = .error e) :
-    (dispatch C c).effects = prepOut C.T c.ufunc c.out := by
+    (dispatch C c).effects = []
+    ∨ (c.kernelErr.isSome = true ∧ (dispatch C c).effects = prepOut C.T c.ufunc c.out) := by
   unfold ufuncGuard at hg
   simp only [Bool.and_eq_true] at hg
   obtain ⟨⟨hout, hany⟩, hin⟩ := hg
   have h : ∀ os, c.out ≠ .many os := by
     intro os hos; rw [hos] at hout; simp at hout
-  revert he
-  unfold dispatch
-  dsimp only
-  split
-  · rename_i inp hinp
-    rw [hinp] at hin
-    simp only [Bool.and_eq_true, Bool.not_eq_true'] at hin
-    exact unary_early C c inp _ h hin.1 hin.2 e
-  · rename_i i0 i1 hinp
-    rw [hinp] at hin hany
-    have hu : (i0.isUnyt || i1.isUnyt) = true := by simpa using hany
-    unfold binaryPath
+  have key : Early C c [] (dispatch C c) := by
+    unfold dispatch
+    dsimp only
     split
-    · intro _; rfl
-    · rename_i c0 hc0
+    · rename_i inp hinp
+      rw [hinp] at hin
+      simp only [Bool.and_eq_true, Bool.not_eq_true'] at hin
+      exact unary_early C c inp _ h hin.1 hin.2
+    · rename_i i0 i1 hinp
+      rw [hinp] at hin hany
+      have hu : (i0.isUnyt || i1.isUnyt) = true := by simpa using hany
+      unfold binaryPath
       split
-      · intro _; rfl
-      · rename_i c1 hc1
-        dsimp only
+      · intro e _; left; rfl
+      · rename_i c0 hc0
         split
-        · exact powerPath_early C c i0 i1 _ _ _ h hu e
-        · split
-          · intro _; rfl
-          · rename_i rule hrule
-            apply stdBinary_early C c rule i0 i1 _ _ _ h hu _ e
-            rw [hrule] at hin
-            simp only [resolvedUnit, hc0, hc1, resolved] at hin
-            exact hin
-  · split
-    · exact clipPath_early C c _ h e
-    · intro _; rfl
+        · intro e _; left; rfl
+        · rename_i c1 hc1
+          dsimp only
+          split
+          · exact powerPath_early C c i0 i1 _ _ _ h hu
+          · split
+            · intro e _; left; rfl
+            · rename_i rule hrule
+              apply stdBinary_early C c rule i0 i1 _ _ _ h hu _
+              rw [hrule] at hin
+              simp only [resolvedUnit, hc0, hc1, resolved] at hin
+              exact hin
+    · split
+      · exact clipPath_early C c _ h
+      · intro e _; left; rfl
+  simpa using key e he
 
 /-! ### the outcome does not depend on `out=` -/
 
@@ -311,43 +348,38 @@ theorem wrapUp_result_noOut (T : Tables) (eff eff' : List (Effect K)) (c : Call 
     · intro h; cases h
     · intro h; exact h
 
+theorem map_ok_transfer {α β : Type} (r r' : Except Err α) (g : α → β) (o : β)
+    (h : ∀ a, r = .ok a → r' = .ok a) : r.map g = .ok o → r'.map g = .ok o := by
+  cases r with
+  | error e => intro h'; simp [Except.map] at h'
+  | ok a => intro h'; rw [h a rfl]; exact h'
+
 theorem unary_result_noOut (C : Ctx K) (c : Call K) (inp : Operand K) (eff eff' : List (Effect K)) (o : Outcome K) :
     (unaryPath C c inp eff).result = .ok o → (unaryPath C (noOut c) inp eff').result = .ok o := by
   have hk : (noOut c).kernelErr = c.kernelErr := rfl
   have hu : (noOut c).ufunc = c.ufunc := rfl
   have hm : (noOut c).method = c.method := rfl
   have ha : (noOut c).axisLen = c.axisLen := rfl
+  have hi : (noOut c).initial = c.initial := rfl
   unfold unaryPath
-  rw [hk, hu, hm, ha]
+  rw [hk, hu, hm, ha, hi]
   cases inp with
   | bare d => intro h; cases h
   | seq it d => intro h; cases h
   | unyt cl u d =>
     dsimp only
-    generalize (if (isAngle u.v && C.T.trig.contains c.ufunc) = true then
-            match tableUnit C.lut "rad" with
-            | none => Except.error Err.UnitParseError
-            | some rad =>
-              match getConversionFactor C.pre C.lut u.v rad with
-              | Except.error e => Except.error e
-              | Except.ok fo => Except.ok (some fo.fst)
-          else Except.ok none : Except Err (Option K)) = trig
-    cases trig with
-    | error e => intro h; cases h
-    | ok factor =>
-      dsimp only
-      cases c.kernelErr with
-      | some e => intro h; cases h
-      | none =>
-        dsimp only
-        generalize (if ((c.ufunc == C.T.multiplyName || c.ufunc == C.T.divideName) && c.method == Method.reduce) = true then
-            Except.map (fun x => ((1 : K), some x)) (powerMapUnit C.T c.ufunc u.v (match c.axisLen with | some n => n | none => d.size))
-          else match C.T.ruleOf c.ufunc with
-            | none => Except.error Err.KeyError
-            | some r => applyRule1 C r u) = ru
-        cases ru with
-        | error e => intro h; cases h
-        | ok mu => exact wrapUp_result_noOut _ _ _ _ _ _ _ _ _ _
+    split
+    · intro h; cases h
+    · split
+      · intro h; cases h
+      · cases c.kernelErr with
+        | some e => intro h; cases h
+        | none =>
+          dsimp only
+          split
+          · intro h; cases h
+          · dsimp only
+            exact map_ok_transfer _ _ _ _ (fun a => wrapUp_result_noOut _ _ _ _ _ _ _ _ _ a)
 
 theorem stdBinary_result_noOut (C : Ctx K) (c : Call K) (rule : Rule) (i0 i1 : Operand K)
     (u0r u1r : Option (UnitR K)) (eff eff' : List (Effect K)) (o : Outcome K) :
@@ -361,12 +393,9 @@ theorem stdBinary_result_noOut (C : Ctx K) (c : Call K) (rule : Rule) (i0 i1 : O
   dsimp only
   split
   · intro h; cases h
-  · generalize (if rule.checked = true then commensurate C rule c.ufunc i0 i1 (defaultUnit u0r) (defaultUnit u1r)
-        else Check.pass (defaultUnit u0r) (defaultUnit u1r) false) = chk
-    cases chk with
-    | refuse => intro h; cases h
-    | early b =>
-      dsimp only
+  · split
+    · intro h; cases h
+    · dsimp only
       cases c.out with
       | none => exact id
       | one oa =>
@@ -375,27 +404,18 @@ theorem stdBinary_result_noOut (C : Ctx K) (c : Call K) (rule : Rule) (i0 i1 : O
         · intro h; cases h
         · exact id
       | many os => intro h; cases h
-    | pass u0 u1 conv =>
-      dsimp only
-      generalize (if conv = true then Except.map some (convertSecond C u0 u1 i1.data) else Except.ok none) = cv
-      cases cv with
-      | error e => intro h; cases h
-      | ok cvo =>
-        dsimp only
-        cases applyRule2 C rule u0 u1 with
-        | error e => intro h; cases h
-        | ok mu =>
-          obtain ⟨mul, unit⟩ := mu
-          dsimp only
-          cases c.kernelErr with
+    · split
+      · intro h; cases h
+      · split
+        · intro h; cases h
+        · cases c.kernelErr with
           | some e => intro h; cases h
           | none =>
             dsimp only
-            cases mulDivPost rule u0 u1 mul unit with
-            | error e => intro h; cases h
-            | ok mu2 =>
-              obtain ⟨m2, un2⟩ := mu2
-              exact wrapUp_result_noOut _ _ _ _ _ _ _ _ _ _
+            split
+            · intro h; cases h
+            · dsimp only
+              exact map_ok_transfer _ _ _ _ (fun a => wrapUp_result_noOut _ _ _ _ _ _ _ _ _ a)
 
 theorem powerPath_result_noOut (C : Ctx K) (c : Call K) (i0 i1 : Operand K) (u0r c1 : Option (UnitR K))
     (eff eff' : List (Effect K)) (o : Outcome K) :
@@ -406,30 +426,13 @@ theorem powerPath_result_noOut (C : Ctx K) (c : Call K) (i0 i1 : Operand K) (u0r
   unfold powerPath
   rw [hk, hu]
   dsimp only
-  generalize (if (i0.data.shape == [] || i1.data.shape == []) = true then
-        if (match c1 with | some u => !u.v.isDimensionless | none => false) = true then Except.error Err.UnitOperationError
-        else if (i1.data.shape == []) = true then Except.ok i1.data.first else Except.ok 1
-      else if (i0.data.shape == i1.data.shape) = true then
-        if (match c1 with | some u => !u.v.isDimensionless | none => false) = true then Except.error Err.UnitOperationError
-        else if (!(defaultUnit u0r).v.isDimensionless && !i1.data.constant) = true then Except.error Err.UnitOperationError
-        else Except.ok i1.data.first
-      else Except.error Err.UnitOperationError : Except Err Rat) = ex
-  cases ex with
-  | error e => intro h; cases h
-  | ok p =>
-    dsimp only
-    cases C.T.ruleOf c.ufunc with
-    | none => intro h; cases h
-    | some rule =>
-      dsimp only
-      generalize (if (rule == Rule.power) = true then Except.map (fun x => ((1 : K), some x)) ((defaultUnit u0r).v.pow p)
-          else Except.error Err.TypeError) = ru
-      cases ru with
-      | error e => intro h; cases h
-      | ok mu =>
-        obtain ⟨mul, unit⟩ := mu
-        dsimp only
-        cases c.kernelErr with
+  split
+  · intro h; cases h
+  · split
+    · intro h; cases h
+    · split
+      · intro h; cases h
+      · cases c.kernelErr with
         | some e => intro h; cases h
         | none => exact wrapUp_result_noOut _ _ _ _ _ _ _ _ _ _
 
@@ -526,7 +529,7 @@ theorem runErr?_some (r : Run K) (e : Err) (h : runErr? r = some e) : r.result =
     suffices: the run ends in `RecursionError` having multiplied the buffer once per frame -/
 theorem inplaceUfunc_diverges (C : Ctx K) (o : OutInfo K) (c : Call K) (u : UnitR K) (u' : UnitV K)
     (h1 : (dispatch C c).effects = [.writeOut 0, .scaleOut, .setOutUnits 0 u'])
-    (h2 : o.unit = some u) (h3 : nestedCall C o u c.out = c) (hp : o.promotable = true) (hw : o.writeable = true)
+    (h2 : o.unit = some u) (h3 : nestedCall C o u c.out = c)
     (rg : Bool) :
     ∀ fuel, (inplaceUfunc true rg C o fuel c).result = .error .RuntimeError
       ∧ (inplaceUfunc true rg C o fuel c).effects = List.replicate fuel (.kernel "ufunc") := by
@@ -534,7 +537,7 @@ theorem inplaceUfunc_diverges (C : Ctx K) (o : OutInfo K) (c : Call K) (u : Unit
   induction fuel with
   | zero => exact ⟨rfl, rfl⟩
   | succ n ih =>
-    simp [inplaceUfunc, h1, convEffects, h2, h3, hp, hw, ih.1, ih.2, List.replicate_succ]
+    simp [inplaceUfunc, h1, convEffects, h2, h3, ih.1, ih.2, List.replicate_succ]
 
 /-- RAW-BUFFER variant (`reenters = false`): the translation of the dispatcher's effects never
     fails and never recurses -/
@@ -547,8 +550,7 @@ theorem convEffects_raw (o : OutInfo K) (nested : K → IRun K) (mul : K) (es : 
 
 /-- … so the verdict is the dispatcher's -/
 theorem inplaceUfunc_raw_result (rg : Bool) (C : Ctx K) (o : OutInfo K) (fuel : Nat) (c : Call K)
-    (hp : ((prepOut C.T c.ufunc c.out : List (Effect K)).length != 0 && !o.promotable) = false)
-    (hw : o.writeable = true) :
+    (hp : o.promotable = true) (hw : o.writeable = true) :
     (inplaceUfunc false rg C o (fuel + 1) c).result = (dispatch C c).result.map (fun _ => ()) := by
   simp only [inplaceUfunc, hp, hw, Bool.not_true, Bool.and_false, Bool.false_eq_true, if_false, convEffects_raw]
   cases (dispatch C c).result <;> rfl
